@@ -98,12 +98,25 @@ def _subst(argv, db):
     return [a.replace("{db}", db) for a in argv]
 
 
+SIDECARS = ("-journal", "-wal", "-shm")
+
+
 def _clean_journal(db):
-    for suffix in ("-journal", "-wal", "-shm"):
+    for suffix in SIDECARS:
         try:
             os.remove(db + suffix)
         except FileNotFoundError:
             pass
+
+
+def _copy_with_sidecars(src, dst):
+    """Byte copy of a dataset file together with whatever journal / WAL files
+    sit next to it (a hot journal, an inert one, or a WAL a changed tree may use)."""
+    _clean_journal(dst)
+    shutil.copyfile(src, dst)
+    for suffix in SIDECARS:
+        if os.path.exists(src + suffix):
+            shutil.copyfile(src + suffix, dst + suffix)
 
 
 class Exec:
@@ -337,10 +350,7 @@ class Trial:
             self.view = self.db
             return self.dump(self.db)
         probe = os.path.join(self.dir, "probe.sqlite")
-        _clean_journal(probe)
-        shutil.copyfile(self.db, probe)
-        if os.path.exists(self.db + "-journal"):
-            shutil.copyfile(self.db + "-journal", probe + "-journal")
+        _copy_with_sidecars(self.db, probe)
         self.view = probe
         return self.dump(probe)
 
@@ -381,7 +391,7 @@ class Trial:
         self.current = dump_mod.dump(self.db)
         if self.spec["kind"] == "field":
             self.static_cache = dump_mod.static_cache_from(self.current)
-        shutil.copyfile(self.db, self.base)
+        _copy_with_sidecars(self.db, self.base)
         self.logline("load", "fault=%s" % json.dumps(fault, sort_keys=True),
                      "killed" if ex.killed else ex.outcome.brief(), self.current.digest)
         self.stats["ops"] += 1
@@ -391,11 +401,8 @@ class Trial:
 
     # -- twin ---------------------------------------------------------------
     def run_twin(self, argv):
-        _clean_journal(self.twin)
-        shutil.copyfile(self.db, self.twin)
-        if os.path.exists(self.db + "-journal"):
-            # hot (or inert) journal: the twin starts from exactly the same files
-            shutil.copyfile(self.db + "-journal", self.twin + "-journal")
+        # hot (or inert) journal included: the twin starts from exactly the same files
+        _copy_with_sidecars(self.db, self.twin)
         ex = execute(self.twin, argv, self.knobs, None, self.dir, record=True, count_sys=True)
         post = self.dump(self.twin)
         return ex, post
@@ -568,8 +575,7 @@ class Trial:
             return
         key = tuple((s, tuple(self.acked[s])) for s in CANON_ORDER if s in self.acked)
         if key not in self.canon_cache:
-            _clean_journal(self.canon_db)
-            shutil.copyfile(self.base, self.canon_db)
+            _copy_with_sidecars(self.base, self.canon_db)
             failed = None
             for s, argv in key:
                 ex = execute(self.canon_db, list(argv), dict(self.knobs, cache_pages=None), None, self.dir)
@@ -752,7 +758,7 @@ def replay_ops(rep, directory):
 # ---------------------------------------------------------------------------
 
 def sweep(seed, directory, step, prefix_steps, spec=None, knobs=None, layers=("A", "C", "B"), b_stride=None,
-          field=None, max_positions=None, hot=False):
+          field=None, max_positions=None, hot=False, size=None):
     """Bring a dataset to a pre-state, then fail `step` at every position.
 
     Returns (stats, distinct, violations[list of (Violation, replay record)], sample).
@@ -764,7 +770,17 @@ def sweep(seed, directory, step, prefix_steps, spec=None, knobs=None, layers=("A
     trial = Trial(seed, directory, spec=spec, knobs=knobs, fault_rate=0.0, layers=[])
     if field:
         trial.spec = {"kind": "field", "sample": field}
+    elif size:
+        trial.spec = workload.gen_spec(trial.rng, size=size)
     trial.draw_setup()
+    if field or size:
+        # large data: keep the grid fine and the thresholds nominal so that every step has thousands of rows
+        trial.knobs["grid_mm"] = 1.0
+        trial.knobs["reference_mm"] = None
+        if field:
+            trial.knobs["thresholds"] = [8.0, 5.0]
+        else:
+            trial.knobs["thresholds"] = [trial.spec["s0"], trial.spec["j0"]]
     trial.fault_rate = 0.0
     trial.do_load(None)
     try:
@@ -794,11 +810,7 @@ def sweep(seed, directory, step, prefix_steps, spec=None, knobs=None, layers=("A
         stats["sweep_hot_prestates"] += 1
     prefix_ops = list(trial.ops)
     pre_path = os.path.join(directory, "prestate.sqlite")
-    shutil.copyfile(trial.db, pre_path)
-    pre_journal = None
-    if os.path.exists(trial.db + "-journal"):
-        pre_journal = pre_path + "-journal"
-        shutil.copyfile(trial.db + "-journal", pre_journal)
+    _copy_with_sidecars(trial.db, pre_path)
     pre_deferred = trial.deferred
     pre = trial.current
     pre_acked = dict(trial.acked)
@@ -826,13 +838,13 @@ def sweep(seed, directory, step, prefix_steps, spec=None, knobs=None, layers=("A
         plans = rng.sample(plans, max_positions)
     stats["sweep_cases"] += 1
     stats["sweep_plans"] += len(plans)
+    if field or size:
+        stats["sweep_cases_large_data"] += 1
+        stats["sweep_large_statements"] += twin_ex.calls
     stats["sweep_twin_ok" if twin_ex.outcome.ok else "sweep_twin_failing_step"] += 1
     for plan in plans:
         # restore the pre-state
-        _clean_journal(trial.db)
-        shutil.copyfile(pre_path, trial.db)
-        if pre_journal:
-            shutil.copyfile(pre_journal, trial.db + "-journal")
+        _copy_with_sidecars(pre_path, trial.db)
         trial.deferred = pre_deferred
         trial.current = pre
         trial.acked = dict(pre_acked)
@@ -894,7 +906,7 @@ def sweep_job(job):
         stats, distinct, violations, sample = sweep(
             job["seed"], directory, job["step"], job["prefix"], layers=job.get("layers", ("A", "C", "B", "L")),
             knobs=None, field=job.get("field"), max_positions=job.get("max_positions"),
-            spec=job.get("spec"), hot=bool(job.get("hot")))
+            spec=job.get("spec"), hot=bool(job.get("hot")), size=job.get("size"))
     stats = collections.Counter(stats)
     stats["runs"] = 1
     return {"stats": stats, "violations": [_viol_record(v, r) for v, r in violations][:3],
@@ -932,10 +944,22 @@ HOT_SWEEP_CASES = [
     ("rise", ("classify", "set-zeta-grid", "set-curvature")),
 ]
 
+# large inputs (thousands of rows per step): chunked / batched / size-dependent commits only show here
+LARGE_SWEEP_CASES = [
+    ("recession", ("classify", "set-zeta-grid"), 1, None),
+    ("rise", ("classify", "set-zeta-grid"), 2, None),
+    ("classify", ("set-zeta-grid",), None, "xl"),
+    ("recession", ("classify", "set-zeta-grid", "rise"), None, "xl"),
+    ("rise", ("classify", "set-zeta-grid"), None, "xl"),
+    ("classify", (), 2, None),
+]
+
 TIERS = {
     # histories: (jobs, per job); fault-free share; sweeps: number of (dataset) samples per sweep case
-    "quick": {"hist": (48, 6), "fault_free_jobs": 8, "sweeps": 1, "hot_sweeps": 1, "sweep_max": 260, "field_hist": 0},
-    "thorough": {"hist": (1600, 10), "fault_free_jobs": 200, "sweeps": 16, "hot_sweeps": 8, "sweep_max": None, "field_hist": 4},
+    "quick": {"hist": (48, 6), "fault_free_jobs": 8, "sweeps": 1, "hot_sweeps": 1, "sweep_max": 260, "field_hist": 0,
+              "large_sweeps": 1, "large_max": 28},
+    "thorough": {"hist": (1600, 10), "fault_free_jobs": 200, "sweeps": 16, "hot_sweeps": 8, "sweep_max": None, "field_hist": 4,
+                 "large_sweeps": 6, "large_max": 400},
 }
 
 RULE = (
@@ -987,7 +1011,13 @@ def check(tier, only=None):
                     jobs.append(("sweep", {"seed": runner.derive_seed(seed, "C20", "hotsweep", rep, ci), "step": step,
                                            "prefix": list(prefix), "max_positions": cfg["sweep_max"], "hot": True,
                                            "layers": ("A", "C"), "want_samples": rep == 0 and ci == 0}))
-        jobs.sort(key=lambda j: 0 if j[0] == "sweep" else 1)
+            for rep in range(cfg["large_sweeps"]):
+                for ci, (step, prefix, field, size) in enumerate(LARGE_SWEEP_CASES):
+                    jobs.append(("sweep", {"seed": runner.derive_seed(seed, "C20", "largesweep", rep, ci), "step": step,
+                                           "prefix": list(prefix), "max_positions": cfg["large_max"],
+                                           "field": field, "size": size, "layers": ("A", "C"), "large": True,
+                                           "want_samples": rep == 0 and ci == 0}))
+        jobs.sort(key=lambda j: (0 if j[1].get("large") else 1) if j[0] == "sweep" else 2)
         for result in runner.run_jobs(_dispatch, jobs):
             report.absorb(result)
             if result:
